@@ -75,6 +75,7 @@ import (
 	"runtime"
 	"sort"
 	"strings"
+	"sync"
 	"testing"
 	"time"
 
@@ -82,6 +83,8 @@ import (
 	"github.com/megaease/easegress/pkg/logger"
 	"github.com/megaease/easegress/pkg/object/serviceregistry"
 	"github.com/megaease/easegress/pkg/protocols/httpprot"
+	"github.com/megaease/easegress/pkg/resilience"
+	"github.com/megaease/easegress/pkg/supervisor"
 	"github.com/megaease/easegress/pkg/tracing"
 	"verif/simkit/hdrv"
 	"verif/simkit/sim"
@@ -105,7 +108,14 @@ type c04Inst struct {
 
 type c04Update struct {
 	GapUs int64     `json:"gap_us"`
+	Burst bool      `json:"burst"` // watcher mode: sent right behind the previous event of this task (no gate, no gap)
 	Insts []c04Inst `json:"insts"`
+}
+
+type c04Retry struct {
+	MaxAttempts int  `json:"max_attempts"`
+	WaitMs      int  `json:"wait_ms"`
+	Exponential bool `json:"exponential"`
 }
 
 type c04Updater struct {
@@ -121,6 +131,7 @@ type c04Op struct {
 	Hdr    string `json:"hdr"`
 	Mirror bool   `json:"mirror"`
 	HoldUs int64  `json:"hold_us"` // inside the transport stub: -1 no gate, 0 gate, >0 sleep
+	Fails  int    `json:"fails"`   // the first Fails transport calls of this request answer with an error
 }
 
 type c04Selector struct {
@@ -135,6 +146,9 @@ type c04Scenario struct {
 	ServiceName string        `json:"service_name"`
 	Selectors   []c04Selector `json:"selectors"`
 	Updaters    []c04Updater  `json:"updaters"`
+	Retry       *c04Retry     `json:"retry,omitempty"`
+	Watcher     bool          `json:"watcher"`    // discovery through the real ServiceRegistry + the pool's own watchServers goroutine
+	InitInsts   []c04Inst     `json:"init_insts"` // watcher mode: what the registry holds when the pool is created
 }
 
 func c04Gen(rng *sim.Rand, tier string) interface{} {
@@ -196,8 +210,14 @@ func c04Gen(rng *sim.Rand, tier string) interface{} {
 		sc.Static[1].Weight = 7
 	}
 
+	// optional retry policy
+	retry := rng.Bool(0.25)
+	if retry {
+		sc.Retry = &c04Retry{MaxAttempts: rng.Pick(2, 2, 3, 4), WaitMs: rng.Pick(1, 1, 5, 20), Exponential: rng.Bool(0.3)}
+	}
+
 	// discovery
-	discovery := nStatic == 0 || rng.Bool(0.65)
+	discovery := nStatic == 0 || rng.Bool(0.65) || (retry && rng.Bool(0.6))
 	if discovery {
 		sc.ServiceName = "svc"
 		overlap := rng.Bool(0.35)
@@ -205,6 +225,10 @@ func c04Gen(rng *sim.Rand, tier string) interface{} {
 		nTasks := 1
 		if rng.Bool(0.15) {
 			nTasks = 2
+		}
+		sc.Watcher = rng.Bool(0.35)
+		if sc.Watcher {
+			nUpd = rng.Range(1, 6)
 		}
 		sc.Updaters = make([]c04Updater, nTasks)
 		type addr struct {
@@ -220,8 +244,15 @@ func c04Gen(rng *sim.Rand, tier string) interface{} {
 				universe = append(universe, addr{fmt.Sprintf("10.1.0.%d", i+1), 8080})
 			}
 		}
-		for uid := 0; uid < nUpd; uid++ {
+		nInit := 0
+		if sc.Watcher && rng.Bool(0.5) {
+			nInit = 1
+		}
+		for uid := -nInit; uid < nUpd; uid++ {
 			u := c04Update{GapUs: int64(rng.Pick(0, 0, 1, 10, 100, 1000, 5000))}
+			if retry {
+				u.GapUs = int64(rng.Pick(0, 50, 200, 600, 1500, 4000, 12000))
+			}
 			ni := rng.Pick(0, 1, 1, 2, 3, 3, 5, 8)
 			pMatch := rng.Pick(0, 50, 80, 100, 100)
 			wmode := "any"
@@ -246,7 +277,7 @@ func c04Gen(rng *sim.Rand, tier string) interface{} {
 						in.Scheme = rng.PickStr("", "http") // may coincide with a static server's URL
 					}
 				} else {
-					in.Addr, in.Port = fmt.Sprintf("10.2.%d.%d", uid+1, j+1), 9000+j
+					in.Addr, in.Port = fmt.Sprintf("10.2.%d.%d", uid+2, j+1), 9000+j
 				}
 				match := rng.Intn(100) < pMatch
 				if match {
@@ -292,7 +323,14 @@ func c04Gen(rng *sim.Rand, tier string) interface{} {
 					}
 				}
 			}
+			if uid < 0 {
+				sc.InitInsts = u.Insts
+				continue
+			}
 			t := rng.Intn(nTasks)
+			if sc.Watcher && len(sc.Updaters[t].Updates) > 0 && rng.Bool(0.55) {
+				u.Burst, u.GapUs = true, 0
+			}
 			sc.Updaters[t].Updates = append(sc.Updaters[t].Updates, u)
 		}
 	}
@@ -300,6 +338,9 @@ func c04Gen(rng *sim.Rand, tier string) interface{} {
 	// selectors
 	ns := rng.Range(1, 6)
 	total := rng.Pick(4, 10, 20, 40, 60, 100, 160, 200)
+	if retry {
+		total = rng.Pick(4, 10, 20, 40)
+	}
 	per := total / ns
 	if per < 1 {
 		per = 1
@@ -331,6 +372,17 @@ func c04Gen(rng *sim.Rand, tier string) interface{} {
 			op.Mirror = rng.Intn(100) < mirrorPct
 			if holdy {
 				op.HoldUs = int64(rng.Pick(-1, 0, 0, 1, 100))
+			}
+			if !op.Mirror {
+				if retry && rng.Bool(0.5) {
+					op.Fails = rng.Pick(1, 1, 1, 2, sc.Retry.MaxAttempts)
+					op.HoldUs = int64(rng.Pick(0, 100, 500, 2000))
+					if op.GapUs == 0 {
+						op.GapUs = int64(rng.Pick(0, 100, 1000, 3000))
+					}
+				} else if !retry && rng.Bool(0.03) {
+					op.Fails = 1
+				}
 			}
 			sel.Ops = append(sel.Ops, op)
 		}
@@ -364,7 +416,10 @@ func c04InstURL(in c04Inst) string {
 
 type c04Generation struct {
 	id         int
-	start, end int // harness stamps of the installing call; end==0: still running
+	start, end int           // harness stamps: reported / known to be in force (installed)
+	endT       time.Duration // virtual time of end
+	installed  bool
+	fifo       int // watcher mode: index of the discovery report (applied in this order by one goroutine); -1 otherwise
 	src        string
 	weight     map[string]int // url -> weight
 	n, total   int
@@ -381,7 +436,11 @@ func (g *c04Generation) describe() string {
 	}
 	sort.Strings(urls)
 	var b strings.Builder
-	fmt.Fprintf(&b, "gen%d(%s,[%d..%d]){", g.id, g.src, g.start, g.end)
+	end := fmt.Sprint(g.end)
+	if !g.installed {
+		end = "?"
+	}
+	fmt.Fprintf(&b, "gen%d(%s,[%d..%s]){", g.id, g.src, g.start, end)
 	for _, u := range urls {
 		fmt.Fprintf(&b, " %s w=%d sure=%d maybe=%d;", u, g.weight[u], g.sure[u], g.maybe[u])
 	}
@@ -396,7 +455,7 @@ type c04Model struct {
 }
 
 func (m *c04Model) newGen(src string, list map[string]int, start int) *c04Generation {
-	g := &c04Generation{id: len(m.gens), start: start, src: src, weight: list, n: len(list),
+	g := &c04Generation{id: len(m.gens), start: start, src: src, weight: list, n: len(list), fifo: -1,
 		sure: map[string]int{}, maybe: map[string]int{}, sticky: map[string]string{}}
 	for _, w := range list {
 		g.total += w
@@ -419,21 +478,34 @@ func (m *c04Model) listFor(insts []c04Inst) (map[string]int, string) {
 	return list, "discovery"
 }
 
+// later tells whether generation j certainly took effect after generation i.
+func c04Later(j, i *c04Generation) bool {
+	if j.id == i.id {
+		return false
+	}
+	if i.fifo >= 0 && j.fifo >= 0 {
+		return j.fifo > i.fifo
+	}
+	if !i.installed {
+		return false
+	}
+	return j.start > i.end
+}
+
 // candidates returns the generations that may have been current at some
-// instant of [s,e].
-func (m *c04Model) candidates(s, e int) []*c04Generation {
+// instant of an attempt that began not before stamp s / virtual time sT and was
+// over at stamp e.
+func (m *c04Model) candidates(s int, sT time.Duration, e int) []*c04Generation {
 	var out []*c04Generation
 	for _, g := range m.gens {
 		if g.start >= e {
 			continue
 		}
 		superseded := false
-		if g.end != 0 || g.id == 0 {
-			for _, j := range m.gens {
-				if j.id != g.id && j.end != 0 && j.start > g.end && j.end < s {
-					superseded = true
-					break
-				}
+		for _, j := range m.gens {
+			if j.installed && c04Later(j, g) && (j.end < s || j.endT < sT) {
+				superseded = true
+				break
 			}
 		}
 		if !superseded {
@@ -456,10 +528,16 @@ func c04Desc(gs []*c04Generation) string {
 type c04Sel struct {
 	name      string
 	s         int
+	sT        time.Duration
+	prevEnd   int           // stamp at which the previous transport call of this request returned
+	prevEndT  time.Duration // its virtual time
 	fwd       []string
+	lastOK    bool
 	selecting bool
 	key       string
 	hold      int64
+	fails     int
+	mirror    bool
 }
 
 func c04ValidPolicy(p string) bool {
@@ -468,6 +546,94 @@ func c04ValidPolicy(p string) bool {
 		return true
 	}
 	return false
+}
+
+// c04Registry is the harness's fake external registry driver behind the real
+// serviceregistry.ServiceRegistry. Every notification the harness sends stands
+// for one state of the registry; the state becomes visible to the k-th
+// ListServiceInstances call made on behalf of a notification (that call IS the
+// discovery report the property speaks of).
+type c04Registry struct {
+	notify  chan *serviceregistry.RegistryEvent
+	cur     []c04Inst
+	pending [][]c04Inst
+	service string
+	onList  func(insts []c04Inst)
+}
+
+func (f *c04Registry) Name() string                                   { return "c04reg" }
+func (f *c04Registry) Notify() <-chan *serviceregistry.RegistryEvent { return f.notify }
+func (f *c04Registry) ApplyServiceInstances(map[string]*serviceregistry.ServiceInstanceSpec) error {
+	return nil
+}
+func (f *c04Registry) DeleteServiceInstances(map[string]*serviceregistry.ServiceInstanceSpec) error {
+	return nil
+}
+func (f *c04Registry) GetServiceInstance(serviceName, instanceID string) (*serviceregistry.ServiceInstanceSpec, error) {
+	return nil, fmt.Errorf("not found")
+}
+func (f *c04Registry) ListServiceInstances(serviceName string) (map[string]*serviceregistry.ServiceInstanceSpec, error) {
+	if len(f.pending) > 0 {
+		f.cur = f.pending[0]
+		f.pending = f.pending[1:]
+	}
+	if f.onList != nil {
+		f.onList(f.cur)
+	}
+	return c04InstMap(f.cur, f.service), nil
+}
+func (f *c04Registry) ListAllServiceInstances() (map[string]*serviceregistry.ServiceInstanceSpec, error) {
+	return c04InstMap(f.cur, f.service), nil
+}
+
+// c04Usable drops instances a shrunk scenario may have made meaningless.
+func c04Usable(in []c04Inst) []c04Inst {
+	var used []c04Inst
+	seenURL, seenID := map[string]bool{}, map[string]bool{}
+	for _, x := range in {
+		url := c04InstURL(x)
+		if x.ID == "" || x.Addr == "" || x.Weight < 0 || x.Port <= 0 || x.Port > 65535 || seenURL[url] || seenID[x.ID] {
+			continue
+		}
+		switch x.Scheme {
+		case "", "http", "https":
+		default:
+			continue
+		}
+		seenURL[url], seenID[x.ID] = true, true
+		used = append(used, x)
+	}
+	return used
+}
+
+func c04InstMap(used []c04Inst, service string) map[string]*serviceregistry.ServiceInstanceSpec {
+	m := map[string]*serviceregistry.ServiceInstanceSpec{}
+	for _, in := range used {
+		m[in.ID] = &serviceregistry.ServiceInstanceSpec{RegistryName: "c04reg", ServiceName: service, InstanceID: in.ID,
+			Address: in.Addr, Port: uint16(in.Port), Scheme: in.Scheme, Weight: in.Weight, Tags: append([]string(nil), in.Tags...)}
+	}
+	return m
+}
+
+var (
+	c04RegistrySpec *supervisor.Spec
+	c04RetryCache   = map[string]resilience.Policy{}
+)
+
+func c04RetryPolicy(rt *c04Retry) (resilience.Policy, error) {
+	key := fmt.Sprintf("%d/%d/%v", rt.MaxAttempts, rt.WaitMs, rt.Exponential)
+	if p, ok := c04RetryCache[key]; ok {
+		return p, nil
+	}
+	raw := map[string]interface{}{"kind": "Retry", "name": "c04retry", "maxAttempts": rt.MaxAttempts, "waitDuration": fmt.Sprintf("%dms", rt.WaitMs)}
+	if rt.Exponential {
+		raw["backOffPolicy"] = "exponential"
+	}
+	p, err := resilience.NewPolicy(raw)
+	if err == nil {
+		c04RetryCache[key] = p
+	}
+	return p, err
 }
 
 func c04Exec(r *sim.Run, sci interface{}) {
@@ -479,11 +645,23 @@ func c04Exec(r *sim.Run, sci interface{}) {
 		return
 	}
 	updaters := sc.Updaters
+	watcher := sc.Watcher
 	if len(sc.ServerTags) == 0 {
 		updaters = nil // "no selector tags" has two readings: discovery is not exercised then
+		watcher = false
+	}
+	if watcher && sc.ServiceName == "" {
+		return
 	}
 	policy := sc.Policy
 	weighted := policy == LoadBalancePolicyWeightedRandom
+	maxAttempts, wait := 1, time.Duration(0)
+	if rt := sc.Retry; rt != nil {
+		if rt.MaxAttempts < 1 || rt.MaxAttempts > 6 || rt.WaitMs < 1 || rt.WaitMs > 1000 {
+			return
+		}
+		maxAttempts, wait = rt.MaxAttempts, time.Duration(rt.WaitMs)*time.Millisecond
+	}
 
 	// --- system under test
 	spec := &ServerPoolSpec{ServiceName: sc.ServiceName, ServerTags: append([]string(nil), sc.ServerTags...)}
@@ -502,6 +680,16 @@ func c04Exec(r *sim.Run, sci interface{}) {
 	if err := spec.Validate(); err != nil {
 		r.Probe("c04.validate_rejected")
 		return
+	}
+	policies := map[string]resilience.Policy{}
+	if sc.Retry != nil {
+		p, err := c04RetryPolicy(sc.Retry)
+		if err != nil {
+			r.Violate("C04.other", "retry policy %+v rejected: %v", *sc.Retry, err)
+			return
+		}
+		policies["c04retry"] = p
+		spec.RetryPolicy = "c04retry"
 	}
 	saved := fnSendRequest
 	defer func() { fnSendRequest = saved }()
@@ -524,7 +712,7 @@ func c04Exec(r *sim.Run, sci interface{}) {
 	inflight := map[string]*c04Sel{}
 	selecting := 0
 	maxSelecting, maxOpen, open := 0, 0, 0
-	var fairChecked, stickyRepeated, zeroWeightMember, noServer, overlapSeen bool
+	var fairChecked, stickyRepeated, zeroWeightMember, noServer, overlapSeen, retryAfterReplacement bool
 
 	fairCheck := func(when string) {
 		if policy != LoadBalancePolicyRoundRobin || r.Violated() {
@@ -564,48 +752,207 @@ func c04Exec(r *sim.Run, sci interface{}) {
 		}
 	}
 
-	var forwarded func(st *c04Sel, url string)
+	var forwarded func(st *c04Sel, url string, attempt int)
 	fnSendRequest = func(hr *http.Request, _ *http.Client) (*http.Response, error) {
 		st := inflight[hr.URL.Path]
 		hold := int64(-1)
+		fail := false
 		if st == nil {
 			r.Violate("C04.other", "transport called for unknown request %s", hr.URL.String())
 		} else {
 			url := hr.URL.Scheme + "://" + hr.URL.Host
+			attempt := len(st.fwd)
 			st.fwd = append(st.fwd, url)
 			hold = st.hold
-			if len(st.fwd) == 1 && !r.Violated() {
-				forwarded(st, url)
+			fail = attempt < st.fails
+			st.lastOK = !fail
+			if !r.Violated() {
+				forwarded(st, url, attempt)
 			}
 			selectionMade(st)
 		}
 		if hold >= 0 && !r.Violated() && !r.Aborted() {
 			r.Sleep(time.Duration(hold) * time.Microsecond)
 		}
+		if st != nil {
+			st.prevEnd, st.prevEndT = stamp(), r.Now()
+			if fail && !st.mirror && maxAttempts > 1 && !st.selecting {
+				// the retry wrapper will select again: from here to the next
+				// transport call (or the return) a selection may be in flight
+				st.selecting = true
+				selecting++
+			}
+		}
+		if fail {
+			return nil, fmt.Errorf("c04: scripted transport failure")
+		}
 		return &http.Response{StatusCode: http.StatusOK, Header: http.Header{}, Body: http.NoBody}, nil
 	}
 
+	// --- discovery plumbing (watcher mode): real ServiceRegistry, fake driver
+	var sent int // notifications handed to the registry (incl. the watcher's initial event)
+	var fake *c04Registry
+	var sreg *serviceregistry.ServiceRegistry
 	px := &Proxy{spec: &Spec{}}
-	sp := NewServerPool(px, spec, "c04pool")
-	g0 := model.newGen("static", model.static, 0)
-	if weighted && g0.n > 0 && g0.total == 0 {
-		r.Probe("c04.weighted_static_all_zero")
+	booting := true
+	reportProbes := func(g *c04Generation, nUsed int) {
+		switch {
+		case g.src == "fallback" && nUsed > 0:
+			r.Probe("c04.fallback_none_tagged")
+		case g.src == "fallback":
+			r.Probe("c04.fallback_no_instances")
+		}
+		if g.n == 0 {
+			r.Probe("c04.empty_list_installed")
+		}
+		if g.n == 1 {
+			r.Probe("c04.single_server_list")
+		}
+		if weighted && g.n > 0 && g.total == 0 {
+			if g.src == "discovery" {
+				r.Probe("c04.weighted_discovery_all_zero")
+			} else {
+				r.Probe("c04.weighted_static_all_zero")
+			}
+		}
+		if weighted && g.src == "discovery" && g.total > 0 {
+			for _, w := range g.weight {
+				if w == 0 {
+					r.Probe("c04.weighted_discovery_some_zero")
+					break
+				}
+			}
+		}
 	}
-	if g0.n == 1 {
-		r.Probe("c04.single_server_list")
+	if watcher {
+		if c04RegistrySpec == nil {
+			sp0, err := supervisor.NewDefaultMock().NewSpec("name: service-registry\nkind: ServiceRegistry\nsyncInterval: 10s\n")
+			if err != nil {
+				r.Violate("C04.other", "harness: cannot build the ServiceRegistry spec: %v", err)
+				return
+			}
+			c04RegistrySpec = sp0
+		}
+		ent, err := supervisor.NewDefaultMock().NewObjectEntityFromSpec(c04RegistrySpec)
+		if err != nil {
+			r.Violate("C04.other", "harness: cannot build the ServiceRegistry entity: %v", err)
+			return
+		}
+		sreg = ent.Instance().(*serviceregistry.ServiceRegistry)
+		sreg.Init(c04RegistrySpec)
+		fake = &c04Registry{notify: make(chan *serviceregistry.RegistryEvent, 64), cur: c04Usable(sc.InitInsts), service: sc.ServiceName}
+		nReports := 0
+		fake.onList = func(insts []c04Inst) {
+			list, src := model.listFor(insts)
+			g := model.newGen(src, list, stamp())
+			if booting && nReports == 0 {
+				// the synchronous first listing of watchServers: in force when NewServerPool returns
+				g.start, g.installed = 0, true
+			} else {
+				g.fifo = nReports - 1
+			}
+			nReports++
+			note("report%d:gen%d(%s,n=%d)@%d", g.fifo, g.id, src, g.n, g.start)
+			r.Eventf("report %d gen%d %s n=%d total=%d", g.fifo, g.id, src, g.n, g.total)
+			reportProbes(g, len(insts))
+		}
+		if err := sreg.RegisterRegistry(fake); err != nil {
+			r.Violate("C04.other", "harness: RegisterRegistry: %v", err)
+			return
+		}
+		var sys sync.Map
+		sys.Store(serviceregistry.Kind, ent)
+		px.super = supervisor.NewMock(nil, nil, sync.Map{}, sys, nil, nil, false, nil, nil)
+		spec.ServiceRegistry = "c04reg"
+		sent = 1
+	}
+	sp := NewServerPool(px, spec, "c04pool")
+	booting = false
+	if len(policies) > 0 {
+		sp.InjectResiliencePolicy(policies)
+	}
+	cleaned := false
+	cleanup := func() {
+		if cleaned || !watcher {
+			return
+		}
+		cleaned = true
+		func() {
+			defer func() { recover() }()
+			close(sp.done)
+			sreg.DeregisterRegistry("c04reg")
+		}()
+	}
+	defer cleanup()
+	if !watcher {
+		g0 := model.newGen("static", model.static, 0)
+		g0.installed = true
+		if weighted && g0.n > 0 && g0.total == 0 {
+			r.Probe("c04.weighted_static_all_zero")
+		}
+		if g0.n == 1 {
+			r.Probe("c04.single_server_list")
+		}
+	} else if len(model.gens) == 0 {
+		r.Violate("C04.other", "watchServers did not list the service instances when the pool was created")
+		return
 	}
 
-	// forwarded is evaluated inside the transport stub: the selection is complete
-	// there (ChooseServer returned), so [st.s, now] brackets it tightly and the
-	// choice is counted before any later selection can be observed.
-	forwarded = func(st *c04Sel, url string) {
+	// settle lets d of virtual time pass. If the scheduler took no stall decision
+	// meanwhile, the clock can only have advanced while every goroutine (the
+	// registry's dispatcher and the pool's watcher included) was blocked with
+	// nothing left to do, so every report belonging to a notification sent before
+	// the call is in force when it returns.
+	settle := func(d time.Duration) bool {
+		sentBefore := sent
+		s0 := r.StalledFor()
+		r.Sleep(d)
+		if d <= 0 || r.StalledFor() != s0 || r.Aborted() {
+			return false
+		}
+		e, now := stamp(), r.Now()
+		for _, g := range model.gens {
+			if g.fifo >= 0 && g.fifo < sentBefore && !g.installed {
+				g.installed, g.end, g.endT = true, e, now
+				note("settled:gen%d@%d", g.id, e)
+			}
+		}
+		return true
+	}
+
+	// forwarded is evaluated inside the transport stub: the selection of this
+	// attempt is complete there (ChooseServer returned), so the attempt's
+	// interval is [start of the attempt, now] and the choice is counted before
+	// any later selection can be observed. The first attempt starts with the
+	// request; a retry attempt starts after the previous transport call returned
+	// and (documented: waitDuration between attempts) not before half of the
+	// configured wait has passed since.
+	forwarded = func(st *c04Sel, url string, attempt int) {
 		e := stamp()
-		cands := model.candidates(st.s, e)
+		s, sT := st.s, st.sT
+		if attempt > 0 {
+			s, sT = st.prevEnd, st.prevEndT+wait/2
+		}
+		cands := model.candidates(s, sT, e)
 		if len(cands) > 1 {
 			overlapSeen = true
 		}
-		note("%s=fwd@%d", st.name, e)
-		r.Eventf("%s forwarded", st.name)
+		if attempt > 0 {
+			r.Probe("c04.retry_attempt_forwarded")
+			for _, g := range model.candidates(st.s, st.sT, st.s+1) {
+				gone := true
+				for _, c := range cands {
+					if c == g {
+						gone = false
+					}
+				}
+				if gone {
+					retryAfterReplacement = true
+				}
+			}
+		}
+		note("%s.a%d=fwd@%d", st.name, attempt, e)
+		r.Eventf("%s attempt %d forwarded", st.name, attempt)
 		var expl []*c04Generation
 		inList := false
 		for _, g := range cands {
@@ -621,11 +968,11 @@ func c04Exec(r *sim.Run, sci interface{}) {
 		}
 		if len(expl) == 0 {
 			if !inList {
-				r.Violate("C04.foreign-server", "request %s [%d,%d] was sent to %s, which is in no list that was current during the request; candidates:%s\nall generations:%s\nhistory: %s",
-					st.name, st.s, e, url, c04Desc(cands), c04Desc(model.gens), history())
+				r.Violate("C04.foreign-server", "request %s attempt %d [%d,%d] was sent to %s, which is in no list that was current during the attempt; candidates:%s\nall generations:%s\nhistory: %s",
+					st.name, attempt, s, e, url, c04Desc(cands), c04Desc(model.gens), history())
 			} else {
-				r.Violate("C04.zero-weight-picked", "weightedRandom sent request %s [%d,%d] to %s, which has weight 0 in every current list containing it although that list has positive weights; candidates:%s\nhistory: %s",
-					st.name, st.s, e, url, c04Desc(cands), history())
+				r.Violate("C04.zero-weight-picked", "weightedRandom sent request %s attempt %d [%d,%d] to %s, which has weight 0 in every current list containing it although that list has positive weights; candidates:%s\nhistory: %s",
+					st.name, attempt, s, e, url, c04Desc(cands), history())
 			}
 			return
 		}
@@ -665,14 +1012,16 @@ func c04Exec(r *sim.Run, sci interface{}) {
 
 	// returned is evaluated when sp.handle has returned (or panicked).
 	returned := func(st *c04Sel, op c04Op, result string, status int, pnc interface{}, stack string) {
+		nT := len(st.fwd)
+		success := result == "" && status == http.StatusOK
 		switch {
 		case pnc != nil:
 			e := stamp()
-			cands := model.candidates(st.s, e)
+			cands := model.candidates(st.s, st.sT, e)
 			note("%s=panic@%d", st.name, e)
 			r.Eventf("%s panic", st.name)
 			for _, g := range cands {
-				if weighted && g.n > 0 && g.total == 0 && len(st.fwd) == 0 {
+				if weighted && g.n > 0 && g.total == 0 && nT == 0 {
 					origin := "static"
 					if g.src == "discovery" {
 						origin = "discovery"
@@ -683,15 +1032,29 @@ func c04Exec(r *sim.Run, sci interface{}) {
 				}
 			}
 			r.Violate("C04.panic", "request %s panicked: %v; candidate lists:%s\n%s\nhistory: %s", st.name, pnc, c04Desc(cands), stack, history())
-		case len(st.fwd) > 1:
-			r.Violate("C04.other", "request %s was sent %d times: %v", st.name, len(st.fwd), st.fwd)
-		case len(st.fwd) == 1:
-			if !op.Mirror && (result != "" || status != http.StatusOK) {
-				r.Violate("C04.other", "request %s was sent to %v and the transport answered 200, but the pool reports result %q status %d", st.name, st.fwd, result, status)
+		case nT > maxAttempts || (op.Mirror && nT > 1):
+			r.Violate("C04.other", "request %s was sent %d times: %v (max attempts %d, mirror=%v)", st.name, nT, st.fwd, maxAttempts, op.Mirror)
+		case nT >= 1 && op.Mirror:
+		case nT >= 1:
+			if st.lastOK != success {
+				r.Violate("C04.other", "request %s: the last of %d transport calls %v, but the pool reports result %q status %d", st.name, nT,
+					map[bool]string{true: "answered 200", false: "failed"}[st.lastOK], result, status)
+			}
+			if !success {
+				note("%s=failed@%d", st.name, stamp())
+				r.Eventf("%s failed after %d transport calls", st.name, nT)
 			}
 		default:
+			// never forwarded: every attempt found no server. With a retry policy
+			// the failure reported is the last attempt's, which began not before
+			// (maxAttempts-1) waits (at least half the configured one each) after
+			// the request.
 			e := stamp()
-			cands := model.candidates(st.s, e)
+			sT := st.sT + time.Duration(maxAttempts-1)*wait/2
+			if op.Mirror {
+				sT = st.sT
+			}
+			cands := model.candidates(st.s, sT, e)
 			if len(cands) > 1 {
 				overlapSeen = true
 			}
@@ -704,14 +1067,110 @@ func c04Exec(r *sim.Run, sci interface{}) {
 				}
 			}
 			if !ok {
-				r.Violate("C04.no-server-but-list-nonempty", "request %s [%d,%d] was not forwarded (result %q, status %d, mirror=%v) although no list current during the request was empty; candidates:%s\nhistory: %s",
-					st.name, st.s, e, result, status, op.Mirror, c04Desc(cands), history())
+				r.Violate("C04.no-server-but-list-nonempty", "request %s [%d,%d] was not forwarded (result %q, status %d, mirror=%v, max attempts %d) although no list current during its last attempt was empty; candidates:%s\nhistory: %s",
+					st.name, st.s, e, result, status, op.Mirror, maxAttempts, c04Desc(cands), history())
 				return
 			}
 			noServer = true
 			if !op.Mirror && (status != http.StatusServiceUnavailable || result == "") {
 				r.Violate("C04.other", "request %s found no server but the outcome is result %q status %d (expected a failure result with 503)", st.name, result, status)
 			}
+		}
+	}
+
+	doOp := func(name, path string, op c04Op) {
+		stdr, err := http.NewRequest(http.MethodGet, "http://gateway.example.com"+path, nil)
+		if err != nil {
+			return
+		}
+		ip := op.IP
+		if ip == "" {
+			ip = "203.0.113.250"
+		}
+		remote, xreal, xff := ip, "", ""
+		switch op.Mode {
+		case "xreal":
+			remote, xreal = "10.9.9.9", ip
+		case "xff":
+			remote, xff = "10.9.9.9", ip
+		}
+		stdr.RemoteAddr = fmt.Sprintf("%s:%d", remote, op.Port)
+		if xreal != "" {
+			stdr.Header.Set("X-Real-Ip", xreal)
+		}
+		if xff != "" {
+			stdr.Header.Set("X-Forwarded-For", xff)
+		}
+		if op.HasHdr {
+			stdr.Header.Set(sc.HashKey, op.Hdr)
+		}
+		req, err := httpprot.NewRequest(stdr)
+		if err != nil {
+			return
+		}
+		ctx := egctx.New(tracing.NoopSpan)
+		ctx.SetRequest(egctx.DefaultNamespace, req)
+
+		st := &c04Sel{name: name, hold: op.HoldUs, selecting: true, fails: op.Fails, mirror: op.Mirror}
+		if st.fails < 0 {
+			st.fails = 0
+		}
+		switch policy {
+		case LoadBalancePolicyIPHash:
+			st.key = "ip:" + remote + "|" + xreal + "|" + xff
+		case LoadBalancePolicyHeaderHash:
+			if op.HasHdr {
+				st.key = "hdr:" + op.Hdr
+			} else {
+				st.key = "hdr-absent"
+			}
+		}
+		inflight[path] = st
+		selecting++
+		open++
+		if selecting > maxSelecting {
+			maxSelecting = selecting
+		}
+		if open > maxOpen {
+			maxOpen = open
+		}
+		st.s, st.sT = stamp(), r.Now()
+		note("%s+@%d", name, st.s)
+		r.Eventf("%s start mirror=%v fails=%d", name, op.Mirror, st.fails)
+		if op.Mirror {
+			r.Probe("c04.mirror_selection")
+		}
+		var result string
+		var pnc interface{}
+		var stack string
+		func() {
+			defer func() {
+				if p := recover(); p != nil {
+					pnc = p
+					stack = c04Stack()
+				}
+			}()
+			result = sp.handle(ctx, op.Mirror)
+		}()
+		status := 0
+		if pnc == nil && !op.Mirror {
+			if resp, ok := ctx.GetOutputResponse().(*httpprot.Response); ok && resp != nil {
+				status = resp.StatusCode()
+			}
+		}
+		open--
+		delete(inflight, path)
+		if r.Violated() {
+			return
+		}
+		returned(st, op, result, status, pnc, stack)
+		selectionMade(st)
+	}
+
+	if watcher {
+		// let the watcher's initial event (same list as the synchronous listing) take effect
+		if settle(time.Millisecond) {
+			r.Probe("c04.watcher_initial_event_settled")
 		}
 	}
 
@@ -728,91 +1187,7 @@ func c04Exec(r *sim.Run, sci interface{}) {
 				if r.Violated() || r.Aborted() {
 					return
 				}
-				name := fmt.Sprintf("s%d.%d", si, oi)
-				path := fmt.Sprintf("/s%d/%d", si, oi)
-				stdr, err := http.NewRequest(http.MethodGet, "http://gateway.example.com"+path, nil)
-				if err != nil {
-					return
-				}
-				ip := op.IP
-				if ip == "" {
-					ip = "203.0.113.250"
-				}
-				remote, xreal, xff := ip, "", ""
-				switch op.Mode {
-				case "xreal":
-					remote, xreal = "10.9.9.9", ip
-				case "xff":
-					remote, xff = "10.9.9.9", ip
-				}
-				stdr.RemoteAddr = fmt.Sprintf("%s:%d", remote, op.Port)
-				if xreal != "" {
-					stdr.Header.Set("X-Real-Ip", xreal)
-				}
-				if xff != "" {
-					stdr.Header.Set("X-Forwarded-For", xff)
-				}
-				if op.HasHdr {
-					stdr.Header.Set(sc.HashKey, op.Hdr)
-				}
-				req, err := httpprot.NewRequest(stdr)
-				if err != nil {
-					return
-				}
-				ctx := egctx.New(tracing.NoopSpan)
-				ctx.SetRequest(egctx.DefaultNamespace, req)
-
-				st := &c04Sel{name: name, hold: op.HoldUs, selecting: true}
-				switch policy {
-				case LoadBalancePolicyIPHash:
-					st.key = "ip:" + remote + "|" + xreal + "|" + xff
-				case LoadBalancePolicyHeaderHash:
-					if op.HasHdr {
-						st.key = "hdr:" + op.Hdr
-					} else {
-						st.key = "hdr-absent"
-					}
-				}
-				inflight[path] = st
-				selecting++
-				open++
-				if selecting > maxSelecting {
-					maxSelecting = selecting
-				}
-				if open > maxOpen {
-					maxOpen = open
-				}
-				st.s = stamp()
-				note("%s+@%d", name, st.s)
-				r.Eventf("%s start mirror=%v", name, op.Mirror)
-				if op.Mirror {
-					r.Probe("c04.mirror_selection")
-				}
-				var result string
-				var pnc interface{}
-				var stack string
-				func() {
-					defer func() {
-						if p := recover(); p != nil {
-							pnc = p
-							stack = c04Stack()
-						}
-					}()
-					result = sp.handle(ctx, op.Mirror)
-				}()
-				status := 0
-				if pnc == nil && !op.Mirror {
-					if resp, ok := ctx.GetOutputResponse().(*httpprot.Response); ok && resp != nil {
-						status = resp.StatusCode()
-					}
-				}
-				open--
-				delete(inflight, path)
-				if r.Violated() {
-					return
-				}
-				returned(st, op, result, status, pnc, stack)
-				selectionMade(st)
+				doOp(fmt.Sprintf("s%d.%d", si, oi), fmt.Sprintf("/s%d/%d", si, oi), op)
 			}
 		})
 	}
@@ -825,23 +1200,38 @@ func c04Exec(r *sim.Run, sci interface{}) {
 				if r.Violated() || r.Aborted() {
 					return
 				}
+				if watcher {
+					if !u.Burst || k == 0 {
+						if settle(time.Duration(u.GapUs) * time.Microsecond) {
+							r.Probe("c04.watcher_settled_mid_run")
+						}
+					} else {
+						r.Probe("c04.watcher_burst_event")
+					}
+					if r.Violated() || r.Aborted() {
+						return
+					}
+					used := c04Usable(u.Insts)
+					fake.pending = append(fake.pending, used)
+					sent++
+					note("u%d.%d:notify#%d@%d", ui, k, sent-1, stamp())
+					r.Eventf("u%d.%d notify #%d burst=%v", ui, k, sent-1, u.Burst)
+					if open > 0 {
+						r.Probe("c04.update_while_request_in_flight")
+					}
+					select {
+					case fake.notify <- &serviceregistry.RegistryEvent{SourceRegistryName: "c04reg", UseReplace: true, Replace: c04InstMap(used, sc.ServiceName)}:
+					default:
+						r.Violate("C04.other", "harness: notification channel full")
+					}
+					continue
+				}
 				r.Sleep(time.Duration(u.GapUs) * time.Microsecond)
 				if r.Violated() || r.Aborted() {
 					return
 				}
-				insts := map[string]*serviceregistry.ServiceInstanceSpec{}
-				seen := map[string]bool{}
-				var used []c04Inst
-				for _, in := range u.Insts {
-					url := c04InstURL(in)
-					if in.ID == "" || in.Addr == "" || in.Weight < 0 || in.Port <= 0 || in.Port > 65535 || seen[url] || insts[in.ID] != nil {
-						continue
-					}
-					seen[url] = true
-					used = append(used, in)
-					insts[in.ID] = &serviceregistry.ServiceInstanceSpec{RegistryName: "reg", ServiceName: sc.ServiceName, InstanceID: in.ID,
-						Address: in.Addr, Port: uint16(in.Port), Scheme: in.Scheme, Weight: in.Weight, Tags: append([]string(nil), in.Tags...)}
-				}
+				used := c04Usable(u.Insts)
+				insts := c04InstMap(used, sc.ServiceName)
 				list, src := model.listFor(used)
 				g := model.newGen(src, list, stamp())
 				note("u%d.%d+gen%d(%s,n=%d)@%d", ui, k, g.id, src, g.n, g.start)
@@ -852,33 +1242,7 @@ func c04Exec(r *sim.Run, sci interface{}) {
 				if open > 0 {
 					r.Probe("c04.update_while_request_in_flight")
 				}
-				switch {
-				case src == "fallback" && len(used) > 0:
-					r.Probe("c04.fallback_none_tagged")
-				case src == "fallback":
-					r.Probe("c04.fallback_no_instances")
-				}
-				if g.n == 0 {
-					r.Probe("c04.empty_list_installed")
-				}
-				if g.n == 1 {
-					r.Probe("c04.single_server_list")
-				}
-				if weighted && g.n > 0 && g.total == 0 {
-					if src == "discovery" {
-						r.Probe("c04.weighted_discovery_all_zero")
-					} else {
-						r.Probe("c04.weighted_static_all_zero")
-					}
-				}
-				if weighted && src == "discovery" && g.total > 0 {
-					for _, w := range list {
-						if w == 0 {
-							r.Probe("c04.weighted_discovery_some_zero")
-							break
-						}
-					}
-				}
+				reportProbes(g, len(used))
 				updOpen++
 				var pnc interface{}
 				func() {
@@ -890,7 +1254,7 @@ func c04Exec(r *sim.Run, sci interface{}) {
 					sp.useService(insts)
 				}()
 				updOpen--
-				g.end = stamp()
+				g.installed, g.end, g.endT = true, stamp(), r.Now()
 				note("u%d.%d-@%d", ui, k, g.end)
 				r.Eventf("u%d.%d end", ui, k)
 				if pnc != nil {
@@ -910,6 +1274,48 @@ func c04Exec(r *sim.Run, sci interface{}) {
 	}
 	fairCheck("end of run")
 
+	// --- quiescence: the list in force is the one last reported
+	settled := true
+	if watcher {
+		settled = false
+		for i := 0; i < 30 && !settled && !r.Aborted(); i++ {
+			settled = settle(10 * time.Millisecond)
+		}
+		if settled && (len(fake.pending) != 0 || len(fake.notify) != 0) {
+			r.Probe("c04.watcher_notifications_left_unhandled")
+			settled = false
+		}
+	}
+	if settled && !r.Aborted() && !r.Violated() {
+		r.Probe("c04.final_requests_after_quiescence")
+		r.Go("final", func() {
+			for i := 0; i < 2; i++ {
+				if r.Violated() || r.Aborted() {
+					return
+				}
+				op := c04Op{IP: "203.0.113.77", Port: 4000 + i, Mode: "remote", HoldUs: -1}
+				doOp(fmt.Sprintf("f.%d", i), fmt.Sprintf("/final/%d", i), op)
+			}
+		})
+		r.WaitTasks()
+		if r.Violated() || r.Aborted() {
+			return
+		}
+		fairCheck("after the final requests")
+	}
+	if watcher {
+		cleaned = true
+		sp.close()
+		sreg.DeregisterRegistry("c04reg")
+		r.Probe("c04.watcher_mode")
+	}
+
+	if sc.Retry != nil {
+		r.Probe("c04.retry_policy")
+	}
+	if retryAfterReplacement {
+		r.Probe("c04.retry_attempt_after_list_replacement")
+	}
 	if maxOpen >= 2 {
 		r.Probe("c04.concurrent_requests")
 	}
@@ -940,11 +1346,11 @@ func c04Exec(r *sim.Run, sci interface{}) {
 	if served >= 2 {
 		r.Probe("c04.two_generations_served")
 	}
-	if fairChecked || stickyRepeated || zeroWeightMember || noServer || served >= 2 {
+	if fairChecked || stickyRepeated || zeroWeightMember || noServer || served >= 2 || retryAfterReplacement {
 		r.Nontrivial()
 	}
 	var sig strings.Builder
-	fmt.Fprintf(&sig, "%s|", policy)
+	fmt.Fprintf(&sig, "%s|w=%v|r=%d|", policy, watcher, maxAttempts)
 	for _, g := range model.gens {
 		fmt.Fprintf(&sig, "%s:%d:%d,", g.src, g.n, g.total)
 	}
